@@ -270,3 +270,98 @@ def handleC17 (fields : List String) : Verdict :=
 
 end Driver
 end Rsbdd
+
+namespace Rsbdd
+namespace Driver
+open Gen Puzzles
+
+def parsePairs (s : String) : Option (List (String × String)) :=
+  if s.isEmpty then some [] else (s.splitOn ",").mapM (fun e => match e.splitOn ">" with
+    | [a, b] => match unhexStr a, unhexStr b with
+      | some a, some b => some (a, b)
+      | _, _ => none
+    | _ => none)
+
+def vertexIndex (name : String) : Option Nat :=
+  if name.startsWith "v" then (name.drop 1).toNat? else none
+
+/-- C18 lines:
+`gen|V|E or -|u|complete|exit class|edges`, `convert|u|input|exit class|output`, `colors|k|input|exit class|output` -/
+def handleC18 (fields : List String) : Verdict :=
+  match fields with
+  | ["gen", v, e, u, complete, cls, edges] =>
+    match v.toNat?, parsePairs edges with
+    | some v, some es =>
+      let undirected := u == "1"; let complete := complete == "1"
+      let cands := Graph.candidates v undirected
+      let want : Nat := if complete then cands.length else (e.toNat?).getD 0
+      let feasible := want ≤ cands.length
+      let idx := es.mapM (fun p => match vertexIndex p.1, vertexIndex p.2 with
+        | some a, some b => some (a, b) | _, _ => none)
+      if !feasible then
+        -- a request that cannot be met is refused, not truncated
+        let o := if cls == "ok" then some s!"{want} edges were asked of a graph that has only {cands.length}; the tool did not refuse"
+          else if cls == "panic" || cls == "signal" then some s!"the tool crashed ({cls})"
+          else if !es.isEmpty then some "a refused request still printed edges" else none
+        { modelOk := cls != "ok", modelOut := "refused", oracle := o, nontrivial := true }
+      else if cls != "ok" then
+        { modelOk := false, modelOut := "ok", oracle := some s!"a request that can be met ({want} of {cands.length} possible edges) failed ({cls})" }
+      else match idx with
+      | none => { modelOk := false, modelOut := "", oracle := some "an edge names something that is not one of v0 … v(V-1)" }
+      | some ix =>
+        -- model: consistent with `generate` for SOME shuffle  ⇔  a duplicate-free list of `want` candidates
+        let isCand := ix.all (cands.contains ·)
+        let nodup := ix.zipIdx.all (fun (p, i) => !((ix.take i).contains p))
+        let modelOk := isCand && nodup && ix.length == want
+        -- oracle: the property's own words
+        let o :=
+          if ix.length != want then some s!"{ix.length} edges instead of {want}"
+          else if ix.any (fun p => p.1 == p.2) then some "an edge joins a vertex to itself"
+          else if ix.any (fun p => p.1 ≥ v || p.2 ≥ v) then some "an edge end-point is not one of v0 … v(V-1)"
+          else if !nodup then some "an edge is listed twice"
+          else if undirected && ix.any (fun p => ix.contains (p.2, p.1)) then some "with -u a pair appears in both orientations"
+          else if complete && !(List.range v).all (fun a => (List.range v).all (fun b => a == b ||
+              (if undirected then ix.contains (a, b) || ix.contains (b, a) else ix.contains (a, b)))) then
+            some "--complete does not contain every pair"
+          else none
+        { modelOk, modelOut := "", oracle := o, nontrivial := want > 0 }
+    | _, _ => Verdict.badLine "unreadable gen line"
+  | ["convert", u, input, cls, output] =>
+    match parsePairs input, parsePairs output with
+    | some inp, some outp =>
+      let m := Graph.readGraph inp (u == "1")
+      if cls != "ok" then { modelOk := false, modelOut := "ok", oracle := some s!"--convert failed ({cls})" } else
+      -- the property's wording for --convert is the model's definition: the list, minus (under -u) every
+      -- edge whose reverse was already kept
+      let o := if outp != m then some s!"--convert printed {outp.length} edges; the input list (reversed duplicates merged under -u) has {m.length}: first difference at {(outp.zip m).findIdx? (fun (a, b) => a != b)}" else none
+      { modelOk := outp == m, modelOut := toString m.length, oracle := o, nontrivial := inp.length > 1 }
+    | _, _ => Verdict.badLine "unreadable convert line"
+  | ["colors", k, input, cls, output] =>
+    match k.toNat?, parsePairs input, parsePairs output with
+    | some k, some inp, some outp =>
+      if cls != "ok" then { modelOk := false, modelOut := "ok", oracle := some s!"--colors failed ({cls})" } else
+      let verts := Graph.dedupStr (inp.flatMap (fun e => [e.1, e.2]))
+      let m := Graph.augmentColors inp k
+      let showC := fun (p : String × Nat) => p.1 ++ "_c" ++ toString p.2
+      let mPairs := m.map (fun (a, b) => (showC a, showC b))
+      let sameUndirected := outp.all (fun p => mPairs.contains p || mPairs.contains (p.2, p.1)) &&
+        mPairs.all (fun p => outp.contains p || outp.contains (p.2, p.1)) && outp.length == mPairs.length
+      -- oracle: a clique of the output covering every input vertex exactly once exists iff the input is k-colourable
+      let adjOut := fun (a b : String) => outp.contains (a, b) || outp.contains (b, a)
+      let rec choices (vs : List String) : List (List (String × Nat)) :=
+        match vs with
+        | [] => [[]]
+        | x :: xs => (choices xs).flatMap (fun rest => (List.range k).map (fun c => (x, c) :: rest))
+      let colourable := (choices verts).any (fun ch => inp.all (fun e => e.1 == e.2 ||
+        (ch.find? (fun p => p.1 == e.1)).map (·.2) != (ch.find? (fun p => p.1 == e.2)).map (·.2)))
+      let coveringClique := (choices verts).any (fun ch => ch.all (fun a => ch.all (fun b => a == b || adjOut (showC a) (showC b))))
+      let o := if verts.length > 5 || k > 3 then none
+        else if colourable != coveringClique then
+          some s!"the input graph is {if colourable then "" else "not "}{k}-colourable, but the output graph {if coveringClique then "has" else "has no"} clique covering every input vertex exactly once"
+        else none
+      { modelOk := sameUndirected, modelOut := toString mPairs.length, oracle := o, nontrivial := verts.length ≥ 3 && k ≥ 2 }
+    | _, _, _ => Verdict.badLine "unreadable colors line"
+  | _ => Verdict.badLine "unknown C18 line"
+
+end Driver
+end Rsbdd
